@@ -408,17 +408,17 @@ META["C09"] = dict(
     "per distinct (variant, exit_on_error, step) which runs the step on a never-used parser. Inputs for dump/validate/instantiate "
     "come from a fresh parser so all sides get equal arguments.",
     shards=g(8, 16),
-    budget=g(45, 300),
+    budget=g(55, 300),
     technique="step-by-step differential of a reused parser against freshly built identical parsers and against a forked history-free process, over generated operation histories",
     rule="a case is (parser variant, exit_on_error, the operation history); distinct by hash; non-trivial = history of >=2 steps.",
     gates={
-        "mon.steps_compared": g(1500, 20000),
-        "mon.steps_compared_with_pristine_process": g(1500, 20000),
+        "mon.steps_compared": g(1200, 20000),
+        "mon.steps_compared_with_pristine_process": g(1200, 20000),
         "st.failing_steps": g(400, 5000), "st.history.print_config_with_exit0_option_then_parses": g(8, 80), "st.history.union_of_class_and_factory": g(6, 60),
         "st.history.help_then_readers.default_config_file": g(20, 200),
-        "st.op.parse_args": g(300, 3000), "st.op.parse_args-fail": g(200, 2000), "st.op.print_config": g(30, 300), "st.op.print_config-fail": g(20, 200),
-        "st.op.help": g(30, 300), "st.op.parse_object": g(50, 500), "st.op.parse_string": g(30, 300), "st.op.parse_env": g(30, 300),
-        "st.op.get_defaults": g(30, 300), "st.op.dump": g(30, 300), "st.op.validate": g(20, 200), "st.op.instantiate": g(20, 200),
+        "st.op.parse_args": g(300, 3000), "st.op.parse_args-fail": g(150, 2000), "st.op.print_config": g(30, 300), "st.op.print_config-fail": g(12, 200),
+        "st.op.help": g(30, 300), "st.op.parse_object": g(50, 500), "st.op.parse_string": g(30, 300), "st.op.parse_env": g(20, 300),
+        "st.op.get_defaults": g(30, 300), "st.op.dump": g(30, 300), "st.op.validate": g(12, 200), "st.op.instantiate": g(20, 200),
         "st.op.other_parser-fail": g(10, 100),
         "st.pair.parse_args>parse_object": g(10, 100), "st.pair.parse_args>parse_string": g(10, 100), "st.pair.print_config>parse_args": g(10, 100),
     },
@@ -473,7 +473,7 @@ META["C15"] = dict(
     rule="a case is (set of link features, channel, which target got a user value, keys given by config, options given on argv); "
     "distinct by hash; non-trivial = the parser has at least one link and the parse succeeded.",
     gates={
-        "mon.link_invariant": g(2000, 20000), "mon.dump_checked": g(500, 5000), "mon.reparse_after_editing_sources_in_the_result": g(150, 1500), "st.group_source_into_untyped_target": g(600, 6000), "st.mapping_supplied_for_untyped_target_of_group_link": g(150, 1500),
+        "mon.link_invariant": g(2000, 20000), "mon.dump_checked": g(500, 5000), "st.chain_through_group_source.refused": g(60, 600), "mon.reparse_after_editing_sources_in_the_result": g(150, 1500), "st.group_source_into_untyped_target": g(600, 6000), "st.mapping_supplied_for_untyped_target_of_group_link": g(150, 1500),
         "mon.target_option_rejected": g(300, 3000),
         "st.target.plain": g(500, 5000), "st.target.init_arg": g(200, 2000), "st.target.list-items": g(200, 2000),
         "st.target.plain-from-class-init-arg": g(150, 1500), "st.target_value_supplied": g(200, 2000), "st.subcommand_links": g(200, 2000),
